@@ -202,7 +202,7 @@ func init() {
 							iface := n.Underlying().(*types.Interface)
 							for _, t := range e.cg.allTypes {
 								if strings.Contains(t.String(), "bn254.system") {
-									fmt.Println("    implements", t, types.Implements(t, iface), types.MissingMethod)
+									fmt.Println("    implements", t, types.Implements(t, iface))
 								}
 							}
 						}
